@@ -252,7 +252,13 @@ def run_case(case, parse):
     spec = ROWS[case["row"]]
     pos = list(case["pos"])
     kws = [tuple(k) for k in case["kws"]]
-    argtext = ", ".join(pos + [f"{k}={v}" for k, v in kws])
+    # optional spacing inside the call (Python's tokenizer ignores it; the property quantifies over it)
+    sp = int(case.get("sp", 0) or 0)
+    eq = {0: "=", 1: " = ", 2: " =", 3: "= "}[sp]
+    sep = {0: ", ", 1: ", ", 2: " , ", 3: ",  "}[sp]
+    argtext = sep.join(pos + [f"{k}{eq}{v}" for k, v in kws])
+    if sp == 3 and argtext:
+        argtext = " " + argtext + " "
     script = "\n".join(spec["pre"] + [spec["call"].format(a=argtext)]) + "\n"
     res = {"script": script}
     # ---- Python's own binder on the real callable (values = the source literals themselves)
